@@ -411,4 +411,99 @@ theorem planFixed_md (b : Params N C S H) (fs : TState N C S) : (applyOps fs (pl
   simp only [List.foldl_append] at hA hB hE ⊢
   simp only [hE, hD, mdOps_md]
 
+/-! ### a build step that FAILS the verification of its declared hashes (calculateAndCheckRuleHash returns at
+`checkRuleHashes`, before `writeRuleHash`; Build then removes the outputs) -/
+
+theorem needsBuilding_congr (b : Params N C S H) (fs1 fs2 : TState N C S) (hmd : fs1.md = fs2.md)
+    (hs : ∀ n, (fs1.out n).gen = (fs2.out n).gen ∧ (fs1.out n).fb = (fs2.out n).fb) :
+    needsBuilding b fs1 = needsBuilding b fs2 := by
+  have hr : ∀ n, readStamp b fs1 n = readStamp b fs2 n := fun n => sliceStamp_congr _ _ _ (hs n).1 (hs n).2
+  have hall : ∀ (l : List N) (h : Option S), readAll b fs1 l h = readAll b fs2 l h := by
+    intro l
+    induction l with
+    | nil => intro h; rfl
+    | cons n ns ih => intro h; unfold readAll; rw [hr n]; cases readStamp b fs2 n <;> simp [ih]
+  have hany : b.outs.any (fun n => (fs1.out n).gen.isNone) = b.outs.any (fun n => (fs2.out n).gen.isNone) := by
+    congr 1; funext n; rw [(hs n).1]
+  unfold needsBuilding readRuleHash
+  rw [hmd, hall, hany]
+
+theorem planFail_split (b : Params N C S H) (fs : TState N C S) :
+    planFailWith fixedOrder false b fs = ([Op.prepTmp] ++ b.outs.map (fun n => Op.out n (.run (b.new n)))) ++
+      ((b.outs.map (fun n => Op.out n .clear) ++ (mdOps b ++ moveOps b fs)) ++ failOps b) := by
+  have : fixedOrder.takeWhile (· != "stamp") = ["unstamp", "metadata", "move"] := by decide
+  simp [planFailWith, this, phaseOps, List.append_assoc]
+
+theorem failTail_proj_move (b : Params N C S H) (fs : TState N C S) (n0 : N) (tl : List N) (hn0 : n0 ∉ tl) :
+    ∀ op ∈ ((tl.map (fun n => Op.out (C := C) (S := S) n .clear) ++ (mdOps b ++ moveOps b fs)) ++ failOps b),
+      ∀ o, proj n0 op = some o → MoveOp o := by
+  intro op h o ho
+  rcases List.mem_append.mp h with h | h
+  · exact mid_proj_move b fs n0 tl hn0 op h o ho
+  · simp only [failOps, List.mem_map] at h
+    obtain ⟨m, _, rfl⟩ := h
+    simp only [proj] at ho
+    split at ho
+    · simp at ho; subst ho; trivial
+    · simp at ho
+
+/-- **A stamp is only ever written on outputs that passed verification.**  The build step of a target whose outputs do
+    not match its declared hashes, cut at ANY position (in particular anywhere on the failure path, before or inside
+    Build's RemoveOutputs), never leaves a state that `needsBuilding` accepts — provided the state it started from was
+    not accepted either.  Depends on the order verify → record inside calculateAndCheckRuleHash (`stampFirst = false`). -/
+theorem failing_step_never_trusted (b : Params N C S H) (fs : TState N C S) (hnd : b.outs.Nodup) (hne : b.outs ≠ [])
+    (hpre : needsBuilding b fs = true) (k : Nat) :
+    needsBuilding b (applyOps fs ((planFailWith fixedOrder false b fs).take k)) = true := by
+  rw [planFail_split]
+  rcases take_append_cases' ([Op.prepTmp] ++ b.outs.map (fun n => Op.out (S := S) n (.run (b.new n)))) _ k with ⟨i, e⟩ | ⟨i, e⟩
+  · rw [e, ← hpre]
+    apply needsBuilding_congr
+    · rw [applyOps_md, foldl_mdNeutral _ _ (fun op h => head_neutral b op (List.mem_of_mem_take h))]
+    · intro n
+      rw [applyOps_out]
+      exact srun_tmpOnly _ (fs.out n) (head_proj_tmpOnly b n i)
+  · rw [e]
+    cases ho : b.outs with
+    | nil => exact absurd ho hne
+    | cons n0 tl =>
+      have hn0 : n0 ∉ tl := by rw [ho] at hnd; exact (List.nodup_cons.mp hnd).1
+      -- output n0 reads no stamp: its stamp was dropped first and only move-phase operations touched it since
+      have hns : readStamp b (applyOps fs (([Op.prepTmp] ++ (n0 :: tl).map (fun n => Op.out (S := S) n (.run (b.new n)))) ++
+          List.take (i + 1) ((((n0 :: tl).map (fun n => Op.out (C := C) (S := S) n .clear)) ++ (mdOps b ++ moveOps b fs)) ++ failOps b))) n0 = none := by
+        have e2 : List.take (i + 1) ((((n0 :: tl).map (fun n => Op.out (C := C) (S := S) n .clear)) ++ (mdOps b ++ moveOps b fs)) ++ failOps b) =
+            Op.out n0 .clear :: List.take i ((tl.map (fun n => Op.out n .clear) ++ (mdOps b ++ moveOps b fs)) ++ failOps b) := by
+          simp [List.take_succ_cons]
+        rw [e2]
+        unfold readStamp
+        rw [applyOps_out, List.filterMap_append]
+        have hhead : (([Op.prepTmp] ++ (n0 :: tl).map (fun n => Op.out (S := S) n (.run (b.new n)))).filterMap (proj n0)) =
+            [.prep, .run (b.new n0)] := by
+          have := filterMap_run_map (S := S) b n0 (n0 :: tl) (by rw [← ho]; exact hnd) (by simp)
+          simp only [List.filterMap_append, this]
+          simp [proj]
+        rw [hhead]
+        simp only [List.filterMap_cons, proj, if_true]
+        rw [srun_append]
+        have hbase : srun (srun (fs.out n0) [SOp.prep, .run (b.new n0)]) [SOp.clear] =
+            ⟨some (b.new n0), (fs.out n0).gen.map (fun nd => { nd with attr := none }), none⟩ := by
+          simp [srun_cons, srun_nil, sstep]
+        have hsplit : ∀ (l : List (SOp C S)), srun (srun (fs.out n0) [SOp.prep, .run (b.new n0)]) (SOp.clear :: l) =
+            srun (srun (srun (fs.out n0) [SOp.prep, .run (b.new n0)]) [SOp.clear]) l := fun l => rfl
+        rw [hsplit, hbase]
+        apply noStamp_of
+        apply srun_move_noStamp
+        · exact filterMap_all _ _ _ (fun op hop o ho' => failTail_proj_move b fs n0 tl hn0 op (List.mem_of_mem_take hop) o ho')
+        · refine ⟨rfl, ?_⟩
+          intro nd hg
+          cases hgen : (fs.out n0).gen with
+          | none => simp [hgen] at hg
+          | some nd0 => simp [hgen] at hg; rw [← hg]
+      cases hnb : needsBuilding b (applyOps fs (([Op.prepTmp] ++ (n0 :: tl).map (fun n => Op.out (S := S) n (.run (b.new n)))) ++
+          List.take (i + 1) ((((n0 :: tl).map (fun n => Op.out (C := C) (S := S) n .clear)) ++ (mdOps b ++ moveOps b fs)) ++ failOps b))) with
+      | true => rfl
+      | false =>
+        exfalso
+        have := (needsBuilding_false b _ hnb).2 n0 (by rw [ho]; simp)
+        rw [hns] at this; simp at this
+
 end PlzVerif.CrashBuild
